@@ -15,8 +15,14 @@ theorem p_pSet (n : Nat) (sh : Sh) (pcs : Tid → Pc) (apcs : Tid → MpscA.Pc) 
     bdestr 0
     bspecC
     bspec0
-    have hp := pset 0 v b i hpc
-    have hpa := psetA 0 v b i hpc
+    have hp := pset 0 v b i (by rw [hpc]; rfl)
+    have hpa := psetA 0 v b i (by rw [hpc]; rfl)
+    have hpsv := psv 0 v b i hpc
+    have hpb := psetB 0 v b i (by rw [hpc]; rfl)
+    have hcb : i + 1 = sh.B → b = sh.tail.blk :=
+      fun hh => (cl3 v b i (hp.2.2 hh).1 (by rw [← (hp.2.2 hh).2, hpc]; rfl)).2
+    have hc3 : sh.a.closing = true → sh.a.own (sh.a.res - 1) = 0 → i + 1 = sh.B :=
+      fun hc ht => (cl3 v b i hc (by rw [ht, hpc]; rfl)).1
     have hgeo := geo b hp.1
     have hx1 := succ_mod_blk sh.B b i hp.2.1
     rw [hgeo] at hA' ⊢
@@ -49,8 +55,14 @@ theorem p_pSet (n : Nat) (sh : Sh) (pcs : Tid → Pc) (apcs : Tid → MpscA.Pc) 
     bdestr t
     bspecC
     bnonzero
-    have hp := pset t v b i hpc
-    have hpa := psetA t v b i hpc
+    have hp := pset t v b i (by rw [hpc]; rfl)
+    have hpa := psetA t v b i (by rw [hpc]; rfl)
+    have hpsv := psv t v b i hpc
+    have hpb := psetB t v b i (by rw [hpc]; rfl)
+    have hcb : i + 1 = sh.B → b = sh.tail.blk :=
+      fun hh => (cl3 v b i (hp.2.2 hh).1 (by rw [← (hp.2.2 hh).2, hpc]; rfl)).2
+    have hc3 : sh.a.closing = true → sh.a.own (sh.a.res - 1) = t → i + 1 = sh.B :=
+      fun hc ht => (cl3 v b i hc (by rw [ht, hpc]; rfl)).1
     have hgeo := geo b hp.1
     have hx1 := succ_mod_blk sh.B b i hp.2.1
     rw [hgeo] at hA' ⊢
